@@ -531,7 +531,88 @@ fn single_timestamp(mode: ModeK, use_utc: bool) -> Result<(u64, u64), Fail> {
     Ok((3, 3))
 }
 
-// units: framing = fmt x ending x mode (54); recursion = fmt x ending (18, both sync modes inside); timestamps 1
+// ---------------------------------------------------------------- a format function that fails
+
+/// Writes part of its output and then fails for messages starting with FAIL.
+fn flaky_format(w: &mut dyn std::io::Write, _now: &mut flexi_logger::DeferredNow, record: &Record) -> std::io::Result<()> {
+    let m = record.args().to_string();
+    if m.starts_with("FAIL") {
+        write!(w, "partial:")?;
+        return Err(std::io::Error::other("format function failed"));
+    }
+    write!(w, "[{}] {m}", record.level())
+}
+
+/// Whatever a failing format function leaves behind, the records around it are framed as usual:
+/// each occupies exactly its format output plus one line ending.
+fn failing_format(mode: ModeK, crlf: bool, to_stdout: bool) -> Result<(u64, u64), Fail> {
+    let env = Env::new("c20f");
+    env.enter();
+    let ending = if crlf { "\r\n" } else { "\n" };
+    let cause = format!("{}/{}/{}", super::c08::mode_class(mode), if crlf { "crlf" } else { "lf" }, if to_stdout { "stdout" } else { "file" });
+    let sc = crate::scratch::Scratch::new("c20fc");
+    let mut cap = None;
+    let lb = if to_stdout {
+        cap = crate::capture::FdCapture::start(1, sc.path().join("o.txt"));
+        flexi_logger::Logger::with(flexi_logger::LogSpecification::trace()).log_to_stdout()
+    } else {
+        flexi_logger::Logger::with(flexi_logger::LogSpecification::trace()).log_to_file(flexi_logger::FileSpec::default().directory(&env.dir).basename("app").suppress_timestamp())
+    };
+    let lb = lb.format(flaky_format).write_mode(mode.write_mode()).error_channel(flexi_logger::ErrorChannel::File(env.err.clone()));
+    let lb = if crlf { lb.use_windows_line_ending() } else { lb };
+    let built = lb.build();
+    let (logger, handle) = match built {
+        Ok(x) => x,
+        Err(e) => {
+            if let Some(c) = cap {
+                c.finish();
+            }
+            return Err(Fail {
+                clause: "build-error".into(),
+                cause,
+                detail: e.to_string(),
+            });
+        }
+    };
+    let msgs = ["one", "FAIL two", "three", "FAIL four", "FAIL five", "six"];
+    for m in msgs {
+        crate::lg::log_info(&*logger, m);
+    }
+    handle.shutdown();
+    drop(logger);
+    drop(handle);
+    let content = match cap {
+        Some(c) => c.finish(),
+        None => std::fs::read(env.dir.join("app.log")).unwrap_or_default(),
+    };
+    env.leave();
+    let text = String::from_utf8_lossy(&content).to_string();
+    let lines: Vec<&str> = text.split(ending).collect();
+    let mut pos = 0;
+    for m in msgs.iter().filter(|m| !m.starts_with("FAIL")) {
+        let want = format!("[INFO] {m}");
+        match lines[pos..].iter().position(|l| *l == want) {
+            Some(p) => pos += p + 1,
+            None => {
+                return Err(Fail {
+                    clause: "framing-after-format-error".into(),
+                    cause,
+                    detail: format!("format function fails for the records FAIL ...; the record {m:?} must occupy exactly {want:?} + line ending, but the output is {text:?}"),
+                })
+            }
+        }
+    }
+    if !text.ends_with(ending) {
+        return Err(Fail {
+            clause: "framing-after-format-error".into(),
+            cause,
+            detail: format!("the output does not end with the line ending: {text:?}"),
+        });
+    }
+    Ok((6, 3))
+}
+
+// units: framing = fmt x ending x mode (54); recursion = fmt x ending (18, both sync modes inside); timestamps 1; failing format 1
 fn n_framing() -> usize {
     FMTS.len() * 2 * MODES.len()
 }
@@ -539,7 +620,7 @@ fn n_rec() -> usize {
     FMTS.len() * 2
 }
 fn units(_tier: &str) -> usize {
-    n_framing() + n_rec() + 1
+    n_framing() + n_rec() + 2
 }
 fn bounds(_tier: &str) -> Value {
     json!({"records_per_configuration": recspecs().len(), "formats": FMTS.len(), "endings": 2, "modes": MODES.len(), "messages": messages().len()})
@@ -561,6 +642,18 @@ fn run_unit(tier: &str, unit: usize, out: &mut Out) {
             let m = *m;
             run_isolated(Duration::from_secs(60), move || recursion(fmt, crlf, m))
         }).collect()
+    } else if unit == n_framing() + n_rec() + 1 {
+        let mut v = Vec::new();
+        for m in MODES {
+            for crlf in [false, true] {
+                v.push(run_isolated(Duration::from_secs(60), move || failing_format(m, crlf, false)));
+                // (the line ending is a setting of the file writer; stdout always gets LF)
+                if !m.is_async() && !crlf {
+                    v.push(run_isolated(Duration::from_secs(60), move || failing_format(m, crlf, true)));
+                }
+            }
+        }
+        v
     } else {
         let mut v = Vec::new();
         for m in MODES {
